@@ -45,13 +45,13 @@ EXCLUDE_FILES = ("verif_hooks.rs", "test_utils.rs")
 def checks_for(path):
     p = path
     if "/mdk-core/src/messages/" in p:
-        return ["C01", "C02", "C05", "C06", "C07", "C08", "C11", "C04"]
+        return ["C01", "C02", "C05", "C06", "C07", "C08", "C11", "C04", "C12", "C03"]   # C12: crash points inside process_message; C03: who obtains plaintext
     if p.endswith("mdk-core/src/epoch_snapshots.rs"):
-        return ["C20", "C01", "C11", "C07"]
+        return ["C20", "C01", "C11", "C07", "C12"]
     if p.endswith("mdk-core/src/groups.rs"):
-        return ["C01", "C05", "C08", "C06", "C02", "C11", "C16", "C15"]
+        return ["C01", "C05", "C08", "C06", "C02", "C11", "C16", "C15", "C12", "C03"]
     if p.endswith("mdk-core/src/welcomes.rs"):
-        return ["C16", "C03", "C08", "C12"]
+        return ["C16", "C03", "C08", "C12", "C15", "C06"]                                # C15: welcome rumor grammar; C06: refusal without effect
     if p.endswith("mdk-core/src/key_packages.rs") or "/mdk-core/src/extension/" in p:
         return ["C15", "C06"] + (["C17"] if p.endswith("group_image.rs") else [])
     if "/mdk-core/src/encrypted_media/" in p:
@@ -693,6 +693,16 @@ def append_result(r):
         with open(os.path.join(OUT, "results.jsonl"), "a") as h:
             h.write(json.dumps(r) + "\n")
 
+CHILDREN = set()
+
+def kill_children(*_):
+    for pid in list(CHILDREN):
+        try:
+            os.killpg(pid, signal.SIGKILL)
+        except (ProcessLookupError, PermissionError):
+            pass
+    os._exit(143)
+
 def run_cmd(cmd, cwd, env, timeout, log):
     """run in its own process group; kill the group on timeout.  returns (rc | 'timeout', seconds)"""
     t0 = time.time()
@@ -700,6 +710,7 @@ def run_cmd(cmd, cwd, env, timeout, log):
         lf.write(("\n$ " + " ".join(cmd) + "\n").encode())
         lf.flush()
         p = subprocess.Popen(cmd, cwd=cwd, env=env, stdout=lf, stderr=subprocess.STDOUT, start_new_session=True)
+        CHILDREN.add(p.pid)
         try:
             rc = p.wait(timeout=timeout)
         except subprocess.TimeoutExpired:
@@ -709,6 +720,7 @@ def run_cmd(cmd, cwd, env, timeout, log):
                 pass
             p.wait()
             rc = "timeout"
+        CHILDREN.discard(p.pid)
     return rc, round(time.time() - t0, 1)
 
 def slot_env(k):
@@ -819,9 +831,11 @@ def cmd_baseline(args):
         rc, secs = run_cmd(["cargo", "build", "--offline", "--quiet", "-p", "mdk-core", "-p", "mdk-memory-storage", "-p", "mdk-sqlite-storage",
                             "-p", "mdk-storage-traits", "--features", "mdk-core/mip04"], f"{S}/repo", renv, 3000, log)
         r["build"] = (rc, secs)
-        for crate in (["mdk-sqlite-storage", "mdk-memory-storage", "mdk-storage-traits"] if args.full_suite else ["mdk-sqlite-storage"]):
-            rc, secs = run_cmd(suite_cmd(crate), f"{S}/repo", renv, 3000, log)
-            r["suite:" + crate] = (rc, secs)
+        cmd = ["cargo", "nextest", "run", "-p", "mdk-core", "-p", "mdk-memory-storage", "-p", "mdk-sqlite-storage", "-p", "mdk-storage-traits",
+               "--features", "mdk-core/mip04", "--offline", "--test-threads", "6"]
+        rc, secs = run_cmd(cmd, f"{S}/repo", renv, 3000, log)
+        msum = re.search(r"Summary \[[^\]]*\]\s*(\d+) tests? run: (\d+) passed", open(log, errors="replace").read())
+        r["suite"] = (rc, secs, msum.group(0) if msum else None)
         allc = [f"C{i:02d}" for i in range(1, 21)]
         mine = allc if args.all_checks else allc[(k - 5)::args.jobs] + allc[:0]
         logdir = os.path.join(rundir, f"baseline_slot{k}"); os.makedirs(logdir, exist_ok=True)
@@ -991,6 +1005,7 @@ def main():
     r.add_argument("--tag", default="")
     sub.add_parser("report")
     args = ap.parse_args()
+    signal.signal(signal.SIGTERM, kill_children); signal.signal(signal.SIGINT, kill_children)
     {"gen": cmd_gen, "run": cmd_run, "report": cmd_report, "baseline": cmd_baseline}[args.cmd](args)
 
 if __name__ == "__main__":
